@@ -67,3 +67,23 @@ fn kf_tree_f32_subnormal_total_panics() {
 }
 
 // (a bounded unit for WeightedAliasIndex<f32> on 2-vectors was tried and did not finish in 60 min: float alias tables are not reached)
+
+/// WeightedTreeIndex<f32>: `push` and `update` reject a NaN or negative weight with InvalidWeight and leave the tree
+/// unchanged (float weights are outside the Verus proof).  Bounded: a 2-node tree.
+#[kani::proof]
+#[kani::unwind(4)]
+fn c04_tree_f32_invalid_weight_rejected() {
+    use rd::weighted::Error;
+    let w: [f32; 2] = kani::any();
+    kani::assume(w[0] >= 0.0 && w[0] <= 1e30 && w[1] >= 0.0 && w[1] <= 1e30);
+    let mut t = WeightedTreeIndex::<f32>::new([w[0], w[1]]).unwrap();
+    let before = (t.get(0).to_bits(), t.get(1).to_bits(), t.len());
+    let x: f32 = kani::any();
+    kani::assume(!(x >= 0.0));                       // NaN or negative (including -inf)
+    kani::cover!(x.is_nan(), "NaN weight reachable");
+    let i: usize = kani::any();
+    kani::assume(i < 2);
+    let r = if kani::any() { t.update(i, x) } else { t.push(x) };
+    kani::assert(r == Err(Error::InvalidWeight), "NaN / negative weight is rejected with InvalidWeight");
+    kani::assert((t.get(0).to_bits(), t.get(1).to_bits(), t.len()) == before, "a rejected operation leaves the tree unchanged");
+}
